@@ -28,6 +28,8 @@ type Case struct {
 	// re-applied (stops at the second one), then the second one is repaired and the directory applied once more.
 	Fail2J int `json:"fail2_j,omitempty"`
 	CRLF   bool `json:"crlf,omitempty"` // files written with Windows line endings
+	// Baseline > 0 (dry runs): the database already holds a user table and the command carries --baseline <version of file Baseline>
+	Baseline int `json:"baseline,omitempty"`
 	// Ckpt: 0-based indexes of the files that are checkpoints. A fresh database starts at the last one (which creates the
 	// journal itself, IF NOT EXISTS, as its first statement); the files before it never run and are never recorded.
 	Ckpt []int `json:"ckpt,omitempty"`
@@ -251,6 +253,18 @@ func checkCase(c Case) (Outcome, error) {
 	args := []string{"migrate", "apply", "--dir", "file://m", "--url", url, "--tx-mode", c.Mode}
 	if c.Count > 0 {
 		args = append(args, strconv.Itoa(c.Count))
+	}
+	if c.DryRun && c.Baseline > 0 {
+		db, err := sqliteref.OpenFile(dbp)
+		if err != nil {
+			return out, fmt.Errorf("harness: %v", err)
+		}
+		_, err = db.Exec("CREATE TABLE preexisting (id integer)")
+		db.Close()
+		if err != nil {
+			return out, fmt.Errorf("harness: %v", err)
+		}
+		args = append(args, "--baseline", strconv.Itoa(c.Baseline))
 	}
 	before, err := readCanon(dbp)
 	if err != nil {
